@@ -23,6 +23,7 @@ type Engine struct {
 	SpecDir  string
 	Loaded   []string
 	FuncDecl map[string]*FuncRef // key "pkgname.Func" / "pkgname.Recv.Method"
+	mapCache map[string][]*types.Map
 }
 
 type FuncRef struct {
